@@ -562,3 +562,4 @@ MANIFEST = {
             "period. The idiom table for centred index vectors is closed: an unknown spelling is an analysis error, not a verdict.",
     "technique": "kinded-axis abstract interpretation + idiom table for centred index vectors + rational normal forms (AST)",
 }
+MANIFEST["text"] += ' Also: memoised helpers key their cache on every parameter the cached value depends on and no helper accumulates module-level state (R5); kinded-axis analysis covers 1-D profiles: an offset estimated from samples along one axis never corrects a position on the other axis.'
